@@ -1,16 +1,16 @@
 #!/bin/sh
-# seedeval.sh <ID> [tier]: applies /verif/seeded/<ID>/patch.diff to a scratch worktree of /repo's HEAD,
+# seedeval.sh <ID or seeded dir name, e.g. C03-r2> [tier]: applies /verif/seeded/<ID>/patch.diff to a scratch worktree of /repo's HEAD,
 # runs ./check <ID> against it, prints the verdict, removes the worktree.
-id=$1; tier=${2:-quick}
+dir=$1; id=$(echo $dir | cut -c1-3); tier=${2:-quick}
 wt=/tmp/lead-seed-$id
 git -C /repo worktree remove --force $wt 2>/dev/null
 git -C /repo worktree add --detach $wt HEAD -q || exit 2
-if ! git -C $wt apply /verif/seeded/$id/patch.diff; then echo "$id: PATCH DOES NOT APPLY to HEAD"; git -C /repo worktree remove --force $wt; exit 2; fi
+if ! git -C $wt apply /verif/seeded/$dir/patch.diff; then echo "$id: PATCH DOES NOT APPLY to HEAD"; git -C /repo worktree remove --force $wt; exit 2; fi
 cd /verif
 VERIF_REPO=$wt timeout 3000 ./check $id $tier > /tmp/lead-seed-$id.out 2>&1
 rc=$?
 echo "$id seeded: exit=$rc violations=$(grep -c '^VIOLATION' /tmp/lead-seed-$id.out)"
 grep '  key:' /tmp/lead-seed-$id.out | head -4 | cut -c1-220
-rm -f /verif/replays/$id-*
+git -C /verif clean -fq replays/; git -C /verif checkout -- replays
 git -C /repo worktree remove --force $wt
 # restore evidence to reflect the unchanged tree is the caller's job
